@@ -359,6 +359,9 @@ class FormulaGrader(ItemGrader, MathMixin):
         # But the answer we're testing against might only merit partial credit.
         for result in results:
             result['grade_decimal'] *= answer['grade_decimal']
+            if result['ok'] is not True:
+                # Keep 'ok' consistent with the scaled grade (an answer worth 0 must not stay 'partial')
+                result['ok'] = self.grade_decimal_to_ok(result['grade_decimal'])
         consolidated = self.consolidate_results(results, answer, self.config['failable_evals'])
 
         return consolidated, functions_used
